@@ -54,6 +54,22 @@ func isPurePkgFunc(fn *ssa.Function) bool {
 	return false
 }
 
+// isReadOnlyPkgFunc: logging / formatting / metrics functions that do not even write through pointers they get.
+func isReadOnlyPkgFunc(fn *ssa.Function) bool {
+	path := ""
+	if fn.Pkg != nil {
+		path = fn.Pkg.Pkg.Path()
+	} else if fn.Origin() != nil && fn.Origin().Pkg != nil {
+		path = fn.Origin().Pkg.Pkg.Path()
+	}
+	for _, p := range []string{"fmt", "errors", "strings", "strconv", "go.uber.org/zap", "github.com/ipfs/go-log", "go.opentelemetry.io/otel", "log"} {
+		if path == p || strings.HasPrefix(path, p+"/") {
+			return true
+		}
+	}
+	return false
+}
+
 func isNoopCallee(fn *ssa.Function) bool {
 	key := funcKey(fn)
 	switch key {
@@ -173,7 +189,11 @@ func (fr *Frame) call(b *ssa.BasicBlock, idx int, ins ssa.Instruction, cc *ssa.C
 			}
 		}
 	}
-	if c := u.C.Funcs[key]; c != nil && !opaque {
+	c := u.C.Funcs[key]
+	if c == nil && strings.Contains(key, "[") && len(callee.TypeArgs()) > 0 {
+		c = u.C.Funcs[stripBrackets(key)]
+	}
+	if c != nil && !opaque {
 		fr.applyContract(b, idx, ins, c, callee, args, res, st, reach)
 		return
 	}
@@ -182,7 +202,9 @@ func (fr *Frame) call(b *ssa.BasicBlock, idx int, ins ssa.Instruction, cc *ssa.C
 		return
 	}
 	if isPurePkgFunc(callee) {
-		fr.havocEscapedPlaces(cc, st)
+		if !isReadOnlyPkgFunc(callee) {
+			fr.havocEscapedPlaces(cc, st)
+		}
 		setRes(fr.freshResult(rt, res))
 		return
 	}
@@ -984,6 +1006,17 @@ func (fr *Frame) checkLatches() {
 					cs.Hit = true
 					// names as they stand at the end of the iteration (just before the back edge)
 					env := fr.localEnv(p, len(p.Instrs), st)
+					hdr := b
+					hst := fr.exitSt[b.Index]
+					env.prevState = hst
+					env.prevVal = func(name string) *Val {
+						for _, ins := range hdr.Instrs {
+							if ph, ok := ins.(*ssa.Phi); ok && ph.Comment == name {
+								return fr.val(ph)
+							}
+						}
+						return fr.resolveLocal(name, hdr, hst)
+					}
 					for k, cl := range cs.Before {
 						f := env.eval(cl.Expr).S
 						oname := fmt.Sprintf("%s#at:loopback:%d:%s", u.Name, li.ordinal, clauseID(cl, k))
@@ -1255,7 +1288,7 @@ func (fr *Frame) callSiteSpecs(b *ssa.BasicBlock, idx int, ins ssa.Instruction, 
 	} else if cc.IsInvoke() {
 		name = cc.Method.Name()
 	} else if c := cc.StaticCallee(); c != nil {
-		name = c.Name()
+		name = siteName(ins)
 	} else {
 		return
 	}
@@ -1324,6 +1357,24 @@ func (fr *Frame) localEnv(b *ssa.BasicBlock, idx int, st *State) *SpecEnv {
 		env.oldVars[p.Name()] = fr.val(p)
 	}
 	env.resolve = func(name string) *Val { return fr.resolveLocalAt(name, b, idx, st) }
+	env.siteDominated = func(callee string, n int) bool {
+		fr.siteOrdinal(callee, nil)
+		for in, ord := range fr.siteOrd {
+			if ord != n || siteName(in) != callee {
+				continue
+			}
+			cb := in.Block()
+			if cb == b {
+				for k, x := range b.Instrs {
+					if x == in {
+						return k < idx
+					}
+				}
+			}
+			return cb.Dominates(b)
+		}
+		return false
+	}
 	return env
 }
 
@@ -1345,7 +1396,11 @@ func siteName(ins ssa.Instruction) string {
 			return cc.Method.Name()
 		}
 		if c := cc.StaticCallee(); c != nil {
-			return c.Name()
+			n := c.Name()
+			if i := strings.Index(n, "["); i > 0 {
+				n = n[:i] // instantiated generic: address it by its plain name
+			}
+			return n
 		}
 	}
 	return ""
